@@ -107,7 +107,7 @@ def _parse(o):
     return True, pairs
 
 
-def eval_cases(ctx, corr, cases, caps, et0=(), consts=None, shard=90):
+def eval_cases(ctx, corr, cases, caps, et0=(), consts=None, shard=130):
     recs = [record(c["in"], c["out"]) for c in cases]
     items = []
     erecs = [et0_record(c) for c in et0]
